@@ -292,7 +292,13 @@ func likeWorker(w *pool.W, arg json.RawMessage) {
 				r := reduceLike(st, c)
 				rw, rg, script := evalLike(st, r)
 				if likeVerdict(rw, rg) == "" {
-					w.Emit(rec{Kind: "harness", Err: "like failure did not reproduce alone"})
+					// history-dependent answer: still a violation, under the first observation
+					key := fmt.Sprintf("like: unstable answer want=%v got=%s (%s)", want, got, sig)
+					if !seen[key] {
+						seen[key] = true
+						cc := c
+						w.Emit(rec{Kind: "fail", Key: key, Clause: "like", Size: 1 << 20, Case: caseDesc{Family: "like", Like: &cc}, Detail: "NOT STABLE ACROSS RE-RUNS: `like` answered " + got + " in the batch script and conforms when the pair runs alone"})
+					}
 					continue
 				}
 				tk := "class"
